@@ -1,7 +1,7 @@
 """C13 — realign aborts with an error when a worker dies.        level: fault enumeration
 
 Faults = (worker w) x (point: before put 0, between puts k/k+1, after the last result before the
-sentinel, after the sentinel) x (kind: SIGKILL, os._exit(3), uncaught exception, SIGSEGV) over
+sentinel, after the sentinel) x (kind: SIGKILL, SIGTERM, SIGSEGV, os._exit(3), sys.exit(2), uncaught exception) over
 several (records, batch, cores) configurations, injected inside the worker by the driver's queue
 proxy, with seeded delay schedules for the survivors; plus asynchronous SIGKILLs from the
 supervisor after the n-th logged event; plus the two hostile in-delivery points: killed while
@@ -39,7 +39,7 @@ ASSUMPTIONS = ["a death after the sentinel may legitimately end in success when 
 
 CONFIGS_Q = [(3, 1, 2), (4, 2, 2), (5, 2, 3), (6, 3, 1), (7, 2, 4)]
 CONFIGS_T = CONFIGS_Q + [(9, 3, 3), (8, 1, 4), (2, 5, 1)]
-KINDS = ["SIGKILL", "exit3", "exception", "SIGSEGV"]
+KINDS = ["SIGKILL", "exit3", "exception", "SIGSEGV", "SIGTERM", "sys_exit_2"]
 
 
 def triples(cfgs):
@@ -73,7 +73,7 @@ def plan(tier):
 
 
 def required(tier):
-    return ["executions", "fault_fired", "kind:SIGKILL", "kind:exit3", "kind:exception", "kind:SIGSEGV",
+    return ["executions", "fault_fired", "kind:SIGKILL", "kind:exit3", "kind:exception", "kind:SIGSEGV", "kind:SIGTERM", "kind:sys_exit_2",
             "point:before_put_0", "point:between_puts", "point:before_sentinel", "point:after_sentinel",
             "async_kills_delivered", "in_delivery_executions", "exit_nonzero"]
 
